@@ -40,7 +40,7 @@ NOT_DECIDED = (
     "draw to MaxwellBoltzmannDistribution(temperature_K=...) which is trusted"
 )
 ASSUMPTIONS = [
-    "reset_momentum modifies its first argument in place and returns it; kinetic_energy does not modify its arguments (read in cp2k.py)",
+    "kinetic_energy does not modify its arguments (read in cp2k.py); whether reset_momentum works in place is read from its source on every run",
     "ASE MaxwellBoltzmannDistribution / Stationary modify momenta only",
 ]
 
@@ -53,6 +53,28 @@ WRITERS = {
 READERS = {"_read_configuration", "read_lammpstrj", "read_gromos96_file"}
 INPLACE = {"reset_momentum": [0], "shift_boxbounds": [0, 1]}
 ASE_POS_MUTATORS = {"set_positions", "set_cell", "translate", "rattle", "set_scaled_positions", "wrap", "center", "rotate", "set_pbc", "set_atomic_numbers", "set_chemical_symbols", "set_masses", "pop", "append", "extend"}
+
+
+def _mutates_param_in_place(tree, fname, idx=0):
+    """Does the repository function `fname` modify its idx-th parameter in place (augmented
+    assignment to the name, item / slice store, or an in-place method)? Read from the source on
+    every run instead of trusting a table."""
+    for m, q, g in tree.all_funcs():
+        if g.name != fname or "." in q:
+            continue
+        ps = [a.arg for a in g.args.args]
+        if idx >= len(ps):
+            return None
+        p = ps[idx]
+        rebinds = [n for n in walk_local(g) if isinstance(n, ast.Assign) and any(isinstance(t, ast.Name) and t.id == p for t in n.targets)]
+        for n in walk_local(g):
+            if isinstance(n, ast.AugAssign) and ((isinstance(n.target, ast.Name) and n.target.id == p) or (isinstance(n.target, ast.Subscript) and path_of(n.target.value) == p)):
+                if not rebinds:
+                    return True
+            if isinstance(n, ast.Assign) and any(isinstance(t, ast.Subscript) and path_of(t.value) == p for t in n.targets) and not rebinds:
+                return True
+        return False
+    return None
 
 
 def implementations(tree):
@@ -190,7 +212,10 @@ def array_engine(ctx, m, cname, f, writer_calls):
             rn = cfg.node_of(r)
             g = [e for e, t, _ in cfg.guards(rn) if t and "zero_momentum" in ast.unparse(e) and "vel_settings" in ast.unparse(e)]
             st = enclosing_stmt(r)
-            assigned = isinstance(st, ast.Assign) and path_of(st.targets[0]) == vp or (r.args and path_of(r.args[0]) == vp)
+            inplace = _mutates_param_in_place(ctx.tree, "reset_momentum", 0)
+            # the reset reaches the written velocities if its result is bound to them, or if the
+            # helper really works in place on the array it is given (checked in its source)
+            assigned = (isinstance(st, ast.Assign) and path_of(st.targets[0]) == vp and r.args and path_of(r.args[0]) == vp) or (bool(inplace) and r.args and path_of(r.args[0]) == vp)
             if g and any(cfg.reaches(cfg.node_of(d), rn) for d in draws) and cfg.reaches(rn, wn) and assigned:
                 good.append(r)
         if good:
@@ -548,6 +573,10 @@ def run(ctx):
 
 
 VARIANTS = [
+    B("c16-lammps-reset-result-discarded", LAMMPS, "        if vel_settings.get(\"zero_momentum\", False):\n            vel = reset_momentum(vel, mass)\n\n        conf_out = os.path.join(self.exe_dir, f\"genvel.{self.ext}\")\n        write_lammpstrj", "        if vel_settings.get(\"zero_momentum\", False):\n            reset_momentum(vel, mass)\n\n        conf_out = os.path.join(self.exe_dir, f\"genvel.{self.ext}\")\n        write_lammpstrj", "R-16.3",
+      also=[(CP2K, "    mom = np.sum(vel * mass, axis=0)\n    vel -= mom / mass.sum()\n    return vel", "    vel_com = np.sum(vel * mass, axis=0) / mass.sum()\n    return vel - vel_com")], why="seeded C16_g (two sites)"),
+    K("c16-keep-lammps-reset-in-place-call", LAMMPS, "        if vel_settings.get(\"zero_momentum\", False):\n            vel = reset_momentum(vel, mass)\n\n        conf_out = os.path.join(self.exe_dir, f\"genvel.{self.ext}\")\n        write_lammpstrj", "        if vel_settings.get(\"zero_momentum\", False):\n            reset_momentum(vel, mass)\n\n        conf_out = os.path.join(self.exe_dir, f\"genvel.{self.ext}\")\n        write_lammpstrj", why="with the in-place helper of today the bare call is enough"),
+    K("c16-keep-pure-reset-helper", CP2K, "    mom = np.sum(vel * mass, axis=0)\n    vel -= mom / mass.sum()\n    return vel", "    vel_com = np.sum(vel * mass, axis=0) / mass.sum()\n    return vel - vel_com", why="all callers bind the result"),
     B("c16-velocity-settings-from-ensemble", TIS, '    dek, _ = engine.modify_velocities(shpt_copy, ens_set["tis_set"])', '    dek, _ = engine.modify_velocities(shpt_copy, ens_set)', "R-16.9", control=True, why="seeded C16_f"),
     B("c16-ase-genvel-settings-cached", ASE, "        self.kb = 8.61733326e-5  # eV/K", "        self.genvel_settings = {\"temperature_K\": self.temperature, \"rng\": getattr(self, \"rgen\", None)}\n        self.kb = 8.61733326e-5  # eV/K", "R-16.5", control=True, why="seeded C16_d",
       also=[(ASE, "        MaxwellBoltzmannDistribution(\n            atoms,\n            temperature_K=self.temperature,\n            rng=getattr(self, \"rgen\", None),\n        )", "        MaxwellBoltzmannDistribution(atoms, **self.genvel_settings)")]),
